@@ -153,8 +153,9 @@ Fixpoint sel_list (conv : bool) (l : list node) (first ws cmt in_class : bool)
       if is_comment t then sel_list conv r first ws true in_class
       else if is_ws t then sel_list conv r first true cmt false
       else
-        (* a space in front of a numeric token cannot create a combinator (numbers only occur in
-           An+B, where `2n+1` and `2n +1` denote the same), so it is not forbidden *)
+        (* a space next to a numeric token cannot create a combinator (numbers only occur in An+B,
+           where `2n+1`, `2n +1`, `2n- 1` ... denote the same), so it is not forbidden; the state
+           `cmt` doubles as "the previous token was numeric" *)
         let g := if first || is_curly t then GFree
                  else if ws then GReq else if cmt || is_numeric t then GFree else GNo in
         (match n with
@@ -173,7 +174,7 @@ Fixpoint sel_list (conv : bool) (l : list node) (first ws cmt in_class : bool)
              else [mke g (TIdent s)]
          | Leaf (TDim nm u) _ => [mke g (if conv then rpx_tok o nm u else TDim nm u)]
          | Leaf t' _ => [mke g t']
-         end) ++ sel_list conv r false false false
+         end) ++ sel_list conv r false false (is_numeric t) (* nor can a space after a number *)
                           (match t with TDelim c => c =? 46 | _ => false end)
   end.
 End SelList.
